@@ -4,6 +4,7 @@ package props
 
 import (
 	"fmt"
+	"regexp"
 	"sort"
 	"strconv"
 	"strings"
@@ -14,6 +15,45 @@ import (
 // dumpExpr renders the parser's AST as a canonical S-expression. Parentheses nodes are transparent;
 // chains of one logical operator inside a label filter are flattened (their associativity carries
 // no meaning); compiled regexes are identified by the source text kept beside them.
+
+// reProbes: strings on which a compiled regex is observed; how the implementation anchors a label
+// regex (`^(?:re)$`, `\A..\z`, ...) is its own business, what it matches is not.
+var reProbes = []string{"", "a", "ab", "abc", "x", "xy", "GET", "^GET$", "err", "ERR", "error", "123", "12.5", "a.b", "a\\b", "\"q\"", "aXb", "xay", "y", "yy", "xyxy", " ", "Z9"}
+
+func reSignature(re *regexp.Regexp) string {
+	if re == nil {
+		return "nil"
+	}
+	var sb strings.Builder
+	for _, p := range reProbes {
+		if re.MatchString(p) {
+			sb.WriteByte('1')
+		} else {
+			sb.WriteByte('0')
+		}
+	}
+	return sb.String()
+}
+
+// wantSignature: what a regex written as src must match; full=true for label matchers (whole value).
+func wantSignature(src string, full bool) string {
+	re := compileUser(src)
+	var sb strings.Builder
+	for _, p := range reProbes {
+		ok := false
+		if full {
+			ok = fullMatch(re, p)
+		} else {
+			ok = re.MatchString(p)
+		}
+		if ok {
+			sb.WriteByte('1')
+		} else {
+			sb.WriteByte('0')
+		}
+	}
+	return sb.String()
+}
 
 func binOpName(op logql.BinOp) string {
 	switch op {
@@ -61,7 +101,7 @@ func dumpMatcher(m logql.LabelMatcher) string {
 		if m.Re == nil {
 			s += ",re=nil"
 		} else {
-			s += ",re=" + strconv.Quote(m.Re.String())
+			s += ",re=" + reSignature(m.Re)
 		}
 	} else if m.Re != nil {
 		s += ",re=unexpected"
@@ -133,7 +173,7 @@ func dumpStage(s logql.PipelineStage) string {
 			if s.Re == nil {
 				re = ",re=nil"
 			} else {
-				re = ",re=" + strconv.Quote(s.Re.String())
+				re = ",re=" + reSignature(s.Re)
 			}
 		} else if s.Re != nil {
 			re = ",re=unexpected"
@@ -255,10 +295,7 @@ func dumpExpr(e logql.Expr) string {
 	case *logql.VectorExpr:
 		return "vector(" + fnum(e.Value) + ")"
 	case *logql.LabelReplaceExpr:
-		re := "nil"
-		if e.Re != nil {
-			re = strconv.Quote(e.Re.String())
-		}
+		re := reSignature(e.Re)
 		return fmt.Sprintf("label_replace(%s,%q,%q,%q,%q,re=%s)", dumpExpr(e.Expr), e.DstLabel, e.Replacement, e.SrcLabel, e.Regex, re)
 	case *logql.BinOpExpr:
 		m := e.Modifier
